@@ -325,3 +325,24 @@ def rule_instances(C, terms, lhs, rhs):
                 key = (canon(s), canon(r))
                 if key not in seen: seen.add(key); out.append((s, r))
     return out
+
+# ------------------------------------------------------------------ cheapest represented term of a class
+WEIGHTS = {'AstSize': None, 'Weighted': {'var': 1, 'app': 3, 'lam': 2, 'k': 5, 'u': 1, 'j': 4, 't3': 6, 's3': 7, 'm3': 9}, 'WeightedF': {'f': 3, 'g': 2, 'h': 5, 'w': 7}}
+def term_cost(t, cf):
+    w = 1 if WEIGHTS[cf] is None else WEIGHTS[cf][t[0]]
+    return w + sum(term_cost(a, cf) for kind, a in zip(SIG[t[0]], t[1:]) if kind == 'c')
+def min_costs(C, cf):
+    """least cost per universe class: fixpoint of cost(class) = min over its nodes of weight + sum of the children's class costs
+    (every represented term is a combination of such nodes, so this is the minimum over ALL represented terms, not only the inserted ones)"""
+    INF = float('inf'); cost = {}
+    changed = True
+    while changed:
+        changed = False
+        for u, g in C.U.items():
+            w = 1 if WEIGHTS[cf] is None else WEIGHTS[cf][g[0]]
+            tot = w
+            for kind, a in zip(SIG[g[0]], g[1:]):
+                if kind == 'c': tot += cost.get(C.cls(a), INF)
+            c = C.find(u)
+            if tot < cost.get(c, INF): cost[c] = tot; changed = True
+    return cost
